@@ -85,6 +85,11 @@ CHECKS = {
     technique='TLA+/TLC: whole-array validation of the arrays returned by the real SDF annotation against the fold of the abstract entry list through the annotation rules (SdfT.tla)',
     text='Abstract SDF entry lists (IOPATH/INTERCONNECT with pairwise distinct values, posedge/negedge qualifiers, empty triples, missing fields, single value lists) over circuits parsed from rendered Verilog (three libraries, both branchforks settings) are rendered with random groupings into CELL blocks - repeated blocks per instance, several top-level interconnect blocks, several DELAY sections per block, TIMINGCHECK blocks, escaped names - and parsed with the real parser. TLC folds the entries (file order, grouping ignored) into the expected [dataset, line, input polarity, output polarity] array, computing the annotated line from the structure (line feeding the pin; branch-fork or sole line for interconnects), and compares it as a whole with what iopaths()/interconnects() returned, so every other entry must be zero.',
     note='Interconnects only where a branch fork or sole reader exists; no two entries write one cell. Values are multiples of 1/8. Renderers of the harness are trusted. Trusted: TLC, JSON reader, projection.'),
+ 'C18': dict(
+    cat='model_checking', ref='DESIGN.md §4 C18, §3 (StilT, Logic.Transition, Netlist.Eval)',
+    technique='TLA+/TLC: validation of the arrays returned by the real StilFile.tests()/responses()/tests_loc() against the meaning of the abstract STIL description (StilT.tla), one TLC state per pattern',
+    text='Abstract STIL descriptions - 1-2 scan chains over the flip-flops in scrambled order, inversion markers at every kind of position (before the first cell, between cells, after the last, consecutive), shuffled signal groups, pattern sets with loads, unloads, capture calls with/without clock pulse and optional launch calls, parameter strings split over lines - are rendered to STIL, parsed by the real parser and assembled for circuits whose flip-flops sit at scrambled node positions. TLC recomputes every array entry: first shifted bit = cell nearest scan-out, inversion parity from scan-in (loads) / scan-out (unloads), _pi/_po strings through the groups onto interface positions, and for launch-on-capture the per-input/per-flip-flop transition with the next state obtained from the TLA+ netlist semantics.',
+    note='Flip-flop kinds upper-case DFF. Unload strings over H/L/X; tests_loc judged for fully specified 0/1 data with a clock pulse in the capture call. STIL renderer of the harness is trusted. Trusted: TLC, JSON reader, projection.'),
  'C07': dict(
     cat='model_checking', ref='DESIGN.md §4 C07, §3 (Schedule, ThreadOrder, SchedReplay)',
     technique='TLA+/TLC: model run of Schedule.tla on the published schedule (all Begin/End interleavings for narrow levels, level-wise static form for all); TLC-simulated thread orders (ThreadOrder.tla) replayed into the real simulators, judged by SchedReplay.tla',
